@@ -20,7 +20,7 @@ EXPLANATION = (
     "no metadata override, and the class/unit guards raising. With concrete shift arrays of every broadcastable shape on a small "
     "concrete sample shape the recorded zero-fill stores are expanded to (bin, element) pairs and must equal the statement's set "
     "(bins that wrapped in: the first ceil(a) / last ceil(|a|) shifted bins, a = df*N/sample_rate, for every element the shift "
-    "broadcasts to; everything for |a| >= N). Value accuracy and the boundary-bin convention are not decided."
+    "broadcasts to; everything for |a| >= N). For concrete per-element shift arrays on symbolic-length signals (NumPy and Dask) the element index of the shift must sit on the matching sample axis of the result term and every element must be mixed with its own exp(+2*pi*i*df_elem*t). Value accuracy and the boundary-bin convention are not decided."
 )
 
 
